@@ -219,6 +219,8 @@ def elems_are(lst, ty):
     if ty.startswith("tuple-of-") and ty.endswith("-int"):
         n = int(ty[9:-4])
         ok = all(isinstance(x, tuple) and len(x) == n and all(isinstance(i, int) and not isinstance(i, bool) for i in x) for x in lst)
+    elif ty == "str":
+        ok = all(isinstance(x, str) for x in lst)
     else:
         raise ValueError(ty)
     if not ok:
